@@ -202,6 +202,25 @@ let handle (line : Stdlib.String.t) : Stdlib.String.t =
               "OK " ^ Stdlib.String.concat "|" (List.map (fun n ->
                  match print (dialect_of qd) n with Ok s -> if s = [] then "-" else cps s | Err e -> "ERR:" ^ err_name e) nodes))
        with Failure m -> "BAD-REQUEST " ^ m)
+  | "HELPERS" :: ops :: rest ->
+      (* HELPERS <op,op,...|-> <text code points>  : parse CREATE TABLE (MySQL), apply the helper history, dump + print *)
+      (try
+         let req_of (w : Stdlib.String.t) : hreq =
+           match Stdlib.String.split_on_char ':' w with
+           | ["ct0"] -> RChangeType false | ["ct1"] -> RChangeType true
+           | ["stn"; s; t] -> RSetTableName ((if s = "-" then None else Some (str_of_word s)), str_of_word t)
+           | ["ac"; t] -> RAppendColumn (str_of_word t) | ["apc"; t] -> RAppendPartition (str_of_word t)
+           | _ -> failwith ("bad helper op " ^ w) in
+         let reqs = if ops = "-" then [] else List.map req_of (Stdlib.String.split_on_char ',' ops) in
+         (match helpers_text reqs (ints_of rest) with
+          | Err e -> "PARSEERR " ^ err_name e
+          | Ok (Err e) -> "HELPERR " ^ err_name e
+          | Ok (Ok v) ->
+              let b = Buffer.create 512 in dump_value b v;
+              let pr d = (match print d v with Ok s -> if s = [] then "-" else cps s | Err e -> "ERR:" ^ err_name e) in
+              "OK " ^ Buffer.contents b ^ " | " ^ pr (dialect_of "MYSQL") ^ " | " ^ pr (dialect_of "HIVE")
+              ^ " | " ^ (if no_list v then "hashable" else "unhashable"))
+       with Failure m -> "BAD-REQUEST " ^ m)
   | "CURSOR" :: rest ->
       (try
          let (toks, rest1) = parse_toks rest in
